@@ -11,7 +11,7 @@ CONSTANTS
  Crash1 <- MCNone
  Crash2 <- MCNone
  Targets2 <- MCTargets1
- DevPlainOpen = TRUE
+ DevPlainOpen = FALSE
  DevFlushEarly = FALSE
  DevBackupOverwrite = FALSE
  DevNoBackup = FALSE
@@ -21,8 +21,8 @@ CONSTANTS
  DevInplaceInput = FALSE
  DevMoveBeforeClose = FALSE
  DevRouteDiscard = FALSE
- DevStageFallback = FALSE
+ DevStageFallback = TRUE
  DevBackupSkip = FALSE
  EnvInits <- MCEnvInits
-PROPERTY CommitOnly
+INVARIANT NoEarlyEffect
 CHECK_DEADLOCK FALSE
